@@ -356,7 +356,7 @@ def handle (c : Case) : Verdict :=
   | "trace" => handleTrace c
   | "crash" => handleCrash c
   | "full" => handleFull c
-  | "skip" => .agree false ["skipped:snapshots-not-restorable-before-prune"]
+  | "skip" => .agree false ["skipped:" ++ (match c.find "why" with | some r => r.getD 1 "?" | none => "?")]
   | s => .differ "protocol" ("unknown-substream-" ++ s)
 
 end PruneLib
